@@ -22,6 +22,9 @@ import (
 	"github.com/scigolib/hdf5/internal/verif/vtime"
 )
 
+// counted over all executions of this process (single-threaded driver)
+var vfC18ExecsWithModeChange, vfC18ExecsWithBackgroundStart int64
+
 const (
 	vfC18OpSTART = iota
 	vfC18OpREC
@@ -241,6 +244,14 @@ func vfC18Case(spec vfC18Spec, cur **vfC18Inst) vsched.Case {
 			fs = append(fs, vsched.Finding{Key: "result-differs-from-sequential/smart:counters", Detail: map[string]any{
 				"started": in.final.Started, "stats_evaluations": in.final.TotalEvaluations, "metrics_evaluations": in.snap.TotalEvaluations,
 				"want_evaluations": wantEvals, "metrics_operations": in.snap.TotalOperations, "want_operations": len(vfC18PreOps(spec.Workload)) + recs}})
+		}
+		// vacuity metrics: in how many executions did the monitoring loop change the mode /
+		// start background rebalancing at all
+		if in.final.ModeChanges > 0 {
+			vfC18ExecsWithModeChange++
+		}
+		if _, starts, _ := in.bt.state(); starts > 0 {
+			vfC18ExecsWithBackgroundStart++
 		}
 		// every start of background rebalancing is matched by a stop: after the final Stop
 		// nothing may be left running (a surplus stop request on an index whose background work
@@ -465,6 +476,11 @@ func TestVerif_C18(t *testing.T) {
 		smart2(true)
 	}
 done:
+	r.Set("smart_executions_with_mode_change_"+vfC18Mode(), vfC18ExecsWithModeChange)
+	r.Set("smart_executions_with_background_start_"+vfC18Mode(), vfC18ExecsWithBackgroundStart)
+	if vfC18ExecsWithModeChange == 0 || vfC18ExecsWithBackgroundStart == 0 {
+		r.Cap("vacuous: no explored execution changed the rebalancing mode / started background rebalancing")
+	}
 	r.Set("smart_script_body_max", fmt.Sprint(maxBody))
 	r.Sample(map[string]any{"case": vfC18Spec{Script: []int{vfC18OpSTART, vfC18OpREC, vfC18OpCANCEL, vfC18OpSTOP, vfC18OpSTOP}}.id()})
 }
